@@ -12,8 +12,8 @@ META = {
                  "65 registrations on the 64-entry table; owner operations after destroy_sandbox",
         "thorough": "histories of <=4 operations",
     },
-    "outside": "pools larger than 3 functions/owners, histories longer than the bound; dylib backend (shares the slot-table code shape with noop; not "
-               "instantiated here); re-creation after destroy is covered by C14",
+    "outside": "pools larger than 3 functions/owners, histories longer than the bound; the dylib backend is instantiated in the thorough tier only "
+               "(depth 3); re-creation after destroy is covered by C14",
     "assumptions": ["operation choice per step is the only symbolic input; everything else on a path is concrete"],
 }
 NOPS = 21
@@ -47,7 +47,11 @@ def conc(v):
     return v if isinstance(v, int) else symex.simp(v).as_long()
 
 
+DYLIB = ('#define BACKEND_HEADER "C13_dylib.hpp"\n#define NSBX rlbox::rlbox_dylib_sandbox\n#define CREATE_SB(sb) sb.create_sandbox("libx.so")\n')
+
+
 def check_hist(ctx, depth, first):
+    ctx.eng.max_strlen = 64
     ops = ctx.buffer(depth, name="op")
     for b in ops.init:
         ctx.assume(z3.ULE(b, NOPS - 1))
@@ -132,6 +136,7 @@ def check_after_destroy(ctx):
 
 
 def check_full(ctx):
+    ctx.eng.max_strlen = 64
     paths = ctx.run("k_cb_full", [])
     for q in paths:
         lg = q.user.get("log") or []
@@ -152,6 +157,7 @@ def check_full(ctx):
 
 
 def check_full_reuse(ctx):
+    ctx.eng.max_strlen = 64
     w = ctx.sym("which", 32)
     ctx.assume(z3.ULE(w, 2))
     paths = ctx.run("k_cb_full_reuse", [w])
@@ -175,6 +181,14 @@ def jobs(tier, seed):
         out.append(Job("C13_hist_%d" % f, src, [dict(name="noop histories depth %d first op %d" % (depth, f), fn=check_hist, kw=dict(depth=depth, first=f), unwind=400)],
                        native=False, max_paths=400000))
     out.append(Job("C13_after_destroy", src, [dict(name="owner operations after destroy_sandbox", fn=check_after_destroy, unwind=400)], native=False))
+    if tier == "thorough":
+        dsrc = DYLIB + '#include "C13_hist.inc"\n'
+        for f in range(NOPS):
+            out.append(Job("C13_dylib_hist_%d" % f, dsrc, [dict(name="dylib histories depth 3 first op %d" % f, fn=check_hist, kw=dict(depth=3, first=f), unwind=400)],
+                           native=False, max_paths=400000, flags=["-D_GLIBCXX_EXTERN_TEMPLATE=0"]))
+        out.append(Job("C13_dylib_full", DYLIB + '#include "C13_full.inc"\n', [dict(name="dylib 65th registration", fn=check_full, unwind=400),
+                                                                                dict(name="dylib registration after release on a full table", fn=check_full_reuse, unwind=400)],
+                       native=False, flags=["-D_GLIBCXX_EXTERN_TEMPLATE=0"]))
     fsrc = NOOP + '#include "C13_full.inc"\n'
     out.append(Job("C13_full", fsrc, [dict(name="65th registration", fn=check_full, unwind=400)], native=False))
     out.append(Job("C13_full_reuse", fsrc, [dict(name="registration after release on a full table", fn=check_full_reuse, unwind=400)], native=False))
